@@ -1374,8 +1374,12 @@ impl PacketReceiver for RtpTransport {
                     Err(mpsc::error::TrySendError::Closed(_)) => {
                         #[cfg(rustrtc_verif)]
                         crate::verif::sched("rtp.demux.closed");
+                        // Forget the closed listener only. remove_sender() drops every
+                        // by_ssrc / by_rid / by_mid entry and route of this channel; the
+                        // packet's own SSRC entry must not be removed by key, because a
+                        // live receiver may have registered that SSRC since the lookup
+                        // above released the lock.
                         let mut listeners = self.listeners.lock();
-                        listeners.by_ssrc.remove(&ssrc);
                         listeners.remove_sender(&tx);
                     }
                 }
